@@ -5,7 +5,7 @@ CONSTANTS
   MaxEvents = 3
   MaxPerBlock = 2
   MaxReorgs = 2
-  MaxRestarts = 1
+  MaxRestarts = 0
   MaxFail = 2
   ChunkSizes = {1, 2, 10}
   FinalityAfterNotices = TRUE
